@@ -46,7 +46,7 @@ ASSUMPTIONS = ["names use NFC-stable code points assigned before Unicode 5.0 (AS
                "whole records (scalar variables with k>1: one rank in independent mode)"]
 
 MODE = {1: 0, 2: 0x200, 5: 0x20}
-ALIGN = [1, 2, 4, 8, 64, 512, 1024, 4096]
+ALIGN = [1, 2, 3, 4, 6, 7, 8, 10, 50, 64, 197, 512, 1001, 1024, 4096]     # any positive integer is legal; the library rounds up to a multiple of 4
 HINTKEY = {"h": "nc_header_align_size", "v": "nc_var_align_size", "r": "nc_record_align_size"}
 PATH, REAL = "t.nc", "real.nc"
 SENT = b"SENTINEL"
@@ -687,7 +687,8 @@ def align_sets(case, args):
     # reading B (RELEASE_NOTES 1.6.0): PNETCDF_HINTS > ncmpi__enddef arguments > MPI_Info > defaults
     hb = env.get("h") or env.get("v") or v_align or info.get("h") or info.get("v") or 512
     rb = env.get("r") or r_align or info.get("r") or 4
-    return {ha, hb}, {ra, rb}
+    # an alignment that is not a multiple of 4 is rounded up to one (variable begins must be 4-byte aligned in any case)
+    return {M.roundup(ha, 4), M.roundup(hb, 4)}, {M.roundup(ra, 4), M.roundup(rb, 4)}
 
 
 def check_point(case, pt, prev, d, res, k):
